@@ -152,9 +152,11 @@ def apply_constraint(cfg, K, mode="constraint"):
         num_projection_iterations=cfg["iters"], enforce_strict_monotonicity=True,
         **kw)
     return np.asarray(c(tf.constant(K32)), dtype=np.float64)
-  elif mode == "finalize":
+  elif mode in ("finalize", "finalize_strict"):
+    # a kernel put in place without the optimizer (assign / restored weights), then
+    # layer.finalize_constraints(); in the default strict mode and in the non-strict mode
     units = K32.shape[1]
-    layer = lattice_layer.Lattice(units=units, monotonic_at_every_step=False,
+    layer = lattice_layer.Lattice(units=units, monotonic_at_every_step=(mode == "finalize_strict"),
                                   num_projection_iterations=cfg["iters"], **kw)
     d = len(cfg["sizes"])
     shape = (None, d) if units == 1 else (None, units, d)
@@ -476,6 +478,8 @@ def run(ctx):
       continue
     c2 = dict(c); c2["mode"] = "finalize"; c2["iters"] = 2
     items.append(("e1", c2))
+    c4 = dict(c); c4["mode"] = "finalize_strict"; c4["iters"] = 2
+    items.append(("e1", c4))
     if not c["comp"]:
       c3 = dict(c); c3["mode"] = "lib_finalize"; c3["iters"] = 0
       items.append(("e1", c3))
